@@ -266,6 +266,18 @@ theorem restart_witness :
     ((idOf subs (second Cfg.code) 1).seq = 1 ∧ (second Cfg.code).store.length = 2 ∧
       FiledOnce [0, 1] (obsOf (second Cfg.code))) := by decide +kernel
 
+/-- **Known finding (on the wire only)**: the number of a bundle that was delivered and deleted before a
+restart is free in the store and is handed out again after the restart — this model's store never forgets
+a key, the node model of C05 exhibits it: `Dtn7.Props.C05.wire_id_reused_after_restart_witness`; class
+`same-id-on-wire-…-number-of-a-bundle-delivered-before-the-restart` of the `rst` lines. -/
+theorem restart_skips_only_stored_numbers :
+    let subs := twoSubs 0 800000000000 0
+    let first := run Cfg.code subs (Node.init subs Keeper.empty) (List.replicate (prog Cfg.code).length (.step 0))
+    -- the first bundle has left the store (delivered) and the node restarted: store and IdKeeper are empty
+    let again : Node := { first with keeper := Keeper.empty, store := [] }
+    let second := run Cfg.code subs again (List.replicate (prog Cfg.code).length (.step 1))
+    idOf subs second 0 = idOf subs second 1 := by decide +kernel
+
 /-- **D18 as found** (`60*60*24` compared with milliseconds): the same happens with a creation time
 that is 87 s old — and does not with the repaired constant. -/
 theorem window_unit_witness :
